@@ -10,14 +10,14 @@
 (* bytes and read back the value (no hidden shared state).  Data races are *)
 (* sensed by ThreadSanitizer: a report is a Race event no action accepts.  *)
 (***************************************************************************)
-EXTENDS Threads, Wire, Json, IOUtils
+EXTENDS Threads, Rpc, Json, IOUtils
 
 Log == ndJsonDeserialize(IOEnv.TRACE)
 Types == JsonDeserialize(IOEnv.TYPES)
+IfacesRaw == JsonDeserialize(IOEnv.IFACES)
+Ifaces == [n \in DOMAIN IfacesRaw |-> Prepare(IfacesRaw[n])]     \* constant: evaluated once
 VARIABLES l, nrej
 vars == <<l, nrej>>
-Has(r, f) == f \in DOMAIN r
-Tag(cond, tag) == IF cond THEN {} ELSE {tag}
 UnionOver(n, F(_)) == UNION {F(i) : i \in 1..n}
 NSlots == 3
 
@@ -32,6 +32,8 @@ Fold(steps, tl, i) ==
   IF i > Len(steps) THEN {}
   ELSE LET s == steps[i] IN
     IF s.op = "codec" THEN CodecFails(s) \cup Fold(steps, tl, i + 1)
+    ELSE IF s.op = "rpc"      \* RPC traffic on the thread's own connection must behave as in a sequential run
+    THEN UnionOver(Len(s.calls), LAMBDA j : CallFails(Ifaces[s.iface], s.calls[j])) \cup Fold(steps, tl, i + 1)
     ELSE LET r == TLStep(tl, s.t + 1, [op |-> s.op, slot |-> s.slot + 1, val |-> s.val]) IN
          Tag(s.obs = r.obs, "thread-local:" \o s.op) \cup Fold(steps, r.tl, i + 1)
 
